@@ -5,13 +5,22 @@ HERE = os.path.dirname(os.path.abspath(__file__))
 VERIF = os.path.dirname(HERE)
 
 # id -> (level text, level note, technique, design_ref)
+TECH = 'Rocq/Coq proof over a Gallina model + model-vs-crate correspondence replay'
+NOTE = 'Trusted: Coq kernel; the hand-written Gallina model (validated on every run by differential replay of crate transcripts on the extracted model, not proved faithful); ExtrOcamlBasic extraction + ocaml/driver.ml; the Rust harness. Print Assumptions is checked per theorem on every run against an allowlist (currently: every theorem closed under the global context).'
 CLAIMS = {
- 'C02': ('Coq theorems (Props/C02.v: lower and upper bound, add_n return value, single-key exactness, table = reference table of the flattened stream) for every w,d>=1, every counter bound, every hash function and every history of add_n/merge/clear, proved by induction over histories on the Gallina model of countminsketch.rs; the model is tied to /repo on every run by replaying crate transcripts (same hash values) on the extracted model, and exact-count oracles run on the crate itself.',
-         'Trusted: Coq kernel; the hand-written model (validated by differential replay, not proved faithful); ExtrOcamlBasic extraction + OCaml driver; Rust harness. Theorems are axiom-free (Print Assumptions checked on every run).',
-         'Rocq/Coq proof over a Gallina model + model-vs-crate correspondence replay', '8.2'),
- 'C17': ('Coq theorems (Props/C17.v: register index and rank formulas incl. first-set-bit characterisation, registers = max rank per addressed register, permutation and set invariance, add = add_hashed o hash, reconstruction) for all precisions and all 64-bit hash lists, on the Gallina model of hyperloglog/mod.rs; tied to /repo by transcript replay on the extracted model (all 15 precisions, boundary hashes) and a register-formula oracle on the crate.',
-         'Trusted: Coq kernel; hand-written model validated by differential replay; extraction + OCaml driver; Rust harness. Axiom-free.',
-         'Rocq/Coq proof over a Gallina model + model-vs-crate correspondence replay', '8.17'),
+ 'C01': ('Coq theorems (Props/C01.v) that no filter model reports a false negative: Bloom for every m>=1,k, every hash function and every history tree of insert/union/clear; Cuckoo for every reachable state, every hash function and every 64-bit RNG word stream (class inserted more often than deleted is reported present; union = multiset sum); QuotientFilter by kernel-evaluated finite closure for widths (1,1)..(3,1) lifted to histories of any length incl. failed inserts/unions, and for 2- and 4-slot filters at EVERY remainder width. PARTIAL: the QF part for bits_quotient >= 3 beyond the closure widths is covered only by the correspondence (crate vs model vs abstract-set oracle, widths up to (12,52)); the HashSet compat glue is covered by the oracle only.', NOTE, TECH, '8.1'),
+ 'C02': ('Coq theorems (Props/C02.v: lower and upper bound, add_n return value, single-key exactness, table = reference table of the flattened stream) for every w,d>=1, every counter bound, every hash function and every history of add_n/merge/clear, proved by induction over histories on the Gallina model of countminsketch.rs; tied to /repo on every run by replaying crate transcripts (same hash values) on the extracted model; exact-count oracles run on the crate itself.', NOTE, TECH, '8.2'),
+ 'C04': ("PARTIAL. Proved (Props/C04.v, exact rational arithmetic): the greedy merge emits at most 2(f(1)-f(0))+1 centroids for ANY scale function satisfying the abstract limit hypothesis, every fused centroid meets the width constraint, and for K0 every history (any weights >= 0, any backlog size, any reads) holds at most delta+1 <= delta+3 centroids. NOT proved: the delta+3 bound for K1-K3 (needs real analysis of asin/ln; only the oracle n_centroids <= delta+3 on the crate covers it) and the rank-accuracy sentence (an empirical claim about input families). The generic model runs with native binary64 and the crate's own logged scale limits and must agree bit for bit with the crate on every generated history (K0-K3).", NOTE, TECH, '8.4'),
+ 'C06': ('Coq theorems (Props/C06.v): Bloom/CMS/HLL merge yields the state of a structure fed both streams (state equality), commutative, associative, idempotent where set-like; Cuckoo union Ok gives the multiset sum and adds len; QF union (closure widths) = canonical state of the set union or Full with state unchanged, commutative/associative/idempotent. PARTIAL for QF beyond the closure widths (correspondence + reference-structure oracle only). "B unchanged" is by typing in the model and by the isolation oracle on the crate.', NOTE, TECH, '8.6'),
+ 'C09': ('Coq theorems (Props/C09.v): n() = adds, add returns true iff untracked, f <= true <= f+delta, completeness (true >= s*n and > eps*n implies reported), soundness, and the harmonic size bound width*(H(ceil(n/width))+1), for every width>=1, every stream, every prefix, every rational threshold, under 1 <= eps*width; correspondence replays crate transcripts (with_width and with_epsilon, adversarial boundary streams, thresholds) on the extracted model; exact-count oracle on the crate at every prefix.', NOTE, TECH, '8.9'),
+ 'C10': ('Coq theorems (Props/C10.v, incl. the one-statement cmsheap_C10): add never panics while counters cannot overflow, iter() yields exactly min(k, distinct) distinct added elements, a missing x is beaten up to E by all k results (E = largest sketch overestimate, also in computed form), exact top-k for E = 0, index consistency of map and ordered set; every k,w,d>=1, every hash function, every stream. Correspondence: crate (default SipHash sketch, hash values recomputed and logged) vs extracted model, 1x1 to 1024-wide sketches; oracle with exact counts and a shadow sketch at every prefix.', NOTE, TECH, '8.10'),
+ 'C12': ('Coq theorems (Props/C12.v): a failed cuckoo insert or union returns the IDENTICAL state, for every hash function, every RNG word list and every state with no well-formedness hypothesis (undo-log invariant across kicks and across the whole union loop, free-slot writes included), and every later operation behaves as on the original; QF: every non-Ok(true) insert result and every failed union returns the identical state, all widths. Correspondence replays failing inserts (500-kick chains) and unions failing at every point; snapshot oracle (len, is_empty, query over the universe, remaining delete counts) on the crate before/after each failing call.', NOTE, TECH, '8.12'),
+ 'C13': ('PARTIAL (general bits_quotient >= 3 at large remainders not proved). Proved (Props/C13.v): fingerprint split = div/mod of the low q+r bits (all widths); kernel-evaluated finite closure for widths (1,1) (1,2) (1,3) (1,4) (2,1) (2,2) (2,3) (3,1) — every set of <= 2^q pairs, every pair — lifted by induction to every history of any length: exact membership, len = number of classes, Ok(true)/Ok(false)/Err(Full) exactly per spec, never stuck, canonical (history-independent) layout; and by remainder renaming to EVERY bits_remainder for bits_quotient in {1,2}. Beyond that: correspondence crate vs model vs abstract set (widths to (12,52)).', NOTE, TECH, '8.13'),
+ 'C14': ("Coq theorems (Props/C14.v): for every hash function, every 64-bit RNG word stream and every reachable state the cuckoo model is an exact multiset of classes (fingerprint, unordered bucket pair): insert Ok reports true and adds one copy, query iff a copy is stored, delete true iff stored and removes exactly one copy and nothing else, len = inserts - deletes, an insert with a free candidate slot (in particular fewer than bucketsize stored) succeeds without eviction. Correspondence incl. scripted eviction words and 500-kick failures; abstract-multiset oracle using the property's own class definition on the crate.", NOTE, TECH, '8.14'),
+ 'C15': ('Coq theorems (Props/C15.v, exact rational arithmetic, any scale function, any backlog size, any history of non-negative weights): quantile monotone, within [min,max], = min at 0 and = max at 1; cdf monotone, within [0,1], 0 below min, 1 from max; cdf(quantile q) = q under strict means/tails and >= q always; repeated reads identical; empty digest. The gap to the crate is IEEE rounding, which the property itself allows ("a few ulps"): the same generic model run with native binary64 must agree with the crate BIT FOR BIT on every generated history, and a float oracle checks the shape on the crate with the property\'s allowance.', NOTE, TECH, '8.15'),
+ 'C16': ("Coq theorems (Props/C16.v, exact rational arithmetic): count = sum of weights, sum/mean = weighted sum/mean, min/max exactly the extreme inserted values, zero weight no-op, is_empty iff no positive weight since creation/clear — every history, backlog size, read placement and scale function. Float accumulation error is the property's own allowance; the generic model with native binary64 agrees bit for bit with the crate on every generated history (weights across 16 orders of magnitude).", NOTE, TECH, '8.16'),
+ 'C17': ('Coq theorems (Props/C17.v: register index and rank formulas incl. first-set-bit characterisation, registers = max rank per addressed register, permutation and set invariance, add = add_hashed o hash, reconstruction) for all precisions and all 64-bit hash lists, on the Gallina model of hyperloglog/mod.rs; tied to /repo by transcript replay on the extracted model (all 15 precisions, boundary hashes) and a register-formula oracle on the crate.', NOTE, TECH, '8.17'),
+ 'C19': ('Coq theorems (Props/C19.v): clear s = the freshly constructed state (so every continuation coincides) for Bloom, CMS, HLL, LossyCounter, Cuckoo, QF, CMSHeap (t-digest and reservoir: see C16/C18 files; added as they land), and is_empty characterisations. clone is a value copy in the functional model; that derive(Clone) is deep is CHECKED, not proved: the harness drives original and clone apart and an isolation oracle compares every untouched instance after every op; a second pass replaces each clear() by a fresh constructor call and compares all results.', NOTE, TECH, '8.19'),
 }
 PENDING = 'check under construction in this round (see DESIGN.md); not yet claimed'
 ALL = ['C%02d' % i for i in range(1, 21)]
